@@ -56,7 +56,7 @@ func (this *Addr) Deserialization(source *common.ZeroCopySource) error {
 		return io.ErrUnexpectedEOF
 	}
 
-	for i := 0; i < int(count); i++ {
+	for i := 0; uint64(i) < count; i++ {
 		var addr comm.PeerAddr
 		addr.Time, eof = source.NextInt64()
 		addr.Services, eof = source.NextUint64()
